@@ -93,20 +93,54 @@ class Acc:
                     extra=self.extra)
 
 
+class TaskDeadline(BaseException):
+    pass
+
+
+def _deadline(signum, frame):
+    raise TaskDeadline()
+
+
+def task_cpu_budget(mod, tier):
+    """CPU seconds one task may consume before the run declares that it does not finish (library calls that are not under their own watchdog can
+    loop for ever under a changed library).  ITIMER_PROF counts CPU time and is independent of the SIGALRM timers used by with_timeout."""
+    b = getattr(mod, 'TASK_CPU_BUDGET', None)
+    if isinstance(b, dict):
+        return b.get(tier, 1800)
+    if b:
+        return b
+    return 1800 if tier != 'thorough' else 6 * 3600
+
+
 def _worker(args):
-    modname, task = args
+    modname, task = args[:2]
+    budget = args[2] if len(args) > 2 else 0
     mod = importlib.import_module(modname)
     t0 = time.time()
+    if budget:
+        signal.signal(signal.SIGPROF, _deadline)
+        signal.setitimer(signal.ITIMER_PROF, budget, 1.0)
     try:
         r = mod.run_task(task)
         if isinstance(r, Acc):
             r = r.as_dict()
         r['task_s'] = time.time() - t0
         return r
+    except TaskDeadline:
+        a = Acc()
+        a.evals += 1
+        a.violation(['task-deadline', jsonable(task)], 'task %s consumed more than %d s of CPU time without finishing (a library call outside the per-call watchdogs does not return)' % (str(jsonable(task))[:120], budget),
+                    kind='task-deadline')
+        r = a.as_dict()
+        r['task_s'] = time.time() - t0
+        return r
     except TimeoutHit:
         return {'error': 'task timeout', 'task': jsonable(task)}
     except BaseException:
         return {'error': traceback.format_exc(), 'task': jsonable(task)}
+    finally:
+        if budget:
+            signal.setitimer(signal.ITIMER_PROF, 0)
 
 
 def load_known(prop):
@@ -149,9 +183,9 @@ def run_property(modname, tier, seed):
     if NPROC > 1 and len(tasks) > 1 and not getattr(mod, 'SERIAL', False):
         ctx = mp_.get_context('fork')
         with ctx.Pool(min(NPROC, len(tasks)), maxtasksperchild=getattr(mod, 'MAXTASKS', None)) as pool:
-            results = list(pool.imap_unordered(_worker, [(modname, t) for t in tasks], chunksize=1))
+            results = list(pool.imap_unordered(_worker, [(modname, t, task_cpu_budget(mod, tier)) for t in tasks], chunksize=1))
     else:
-        results = [_worker((modname, t)) for t in tasks]
+        results = [_worker((modname, t, task_cpu_budget(mod, tier))) for t in tasks]
     vtags = {}
     for r in results:
         if 'error' in r:
